@@ -344,6 +344,39 @@ def rule_shared(ctx, rep):
                 rep.violation(f.rule, f.construct, f.detail, f.where, f.message, f.path)
 
 
+def rule_result_driven(ctx, rep, rule_id="R-RESULT-DRIVEN"):
+    rep.rule(
+        rule_id,
+        "in the XML transformer an event is accepted *without looking at any result location* only when the transformer is not result-driven "
+        "at all, i.e. under the identity fact `self.results is None`; a truthiness test (of the results or of an index built from them) also "
+        "accepts everything for an *empty* result list, and every named element of a file that carries no finding is edited and reported",
+        min_instances=1,
+    )
+    n = 0
+    for cls in ctx.prog.classes.values():
+        if cls.module.name != "codemodder.codemods.xml_transformer":
+            continue
+        for m in cls.methods.values():
+            if m.name in ("__init__",) or not any(isinstance(x, ast.Attribute) and x.attr in ("results",) or (isinstance(x, ast.Attribute) and x.attr.startswith("_result")) for x in walk_no_nested(m.node)):
+                continue
+            fa = ctx.flow(m)
+            for ex in fa.exits:
+                if ex.kind != "return" or not (isinstance(ex.value, ast.Constant) and ex.value.value is True):
+                    continue
+                for must, _may in ex.state.parts:
+                    texts = {(pol, txt) for pol, txt in must if not txt.startswith(("EV:", "ITER:", "MATCH:"))}
+                    compares_location = any("location" in txt or ".start.line" in txt for _p, txt in texts)
+                    if compares_location:
+                        continue
+                    n += 1
+                    ok = (True, "self.results is None") in texts
+                    rep.check(rule_id, m.qname, m.loc(ex.node) if getattr(ex, "node", None) is not None else m.loc(), ok, "accept-all",
+                              f"`return True` is reached under {sorted(t for _p, t in texts) or 'no condition'} without comparing a result location and without the fact "
+                              "`self.results is None`: an empty result list makes every event match")
+    if n < 1:
+        raise AnalysisError("xml_transformer: no accept-all exit depending on the results found (XMLTransformer.match_result confirmed by hand)")
+
+
 def check(ctx, rep):
     rep.explanation = (
         "The two plugin pipelines are small enough to decide structurally: line bookkeeping (AST equality of the two line "
@@ -355,6 +388,7 @@ def check(ctx, rep):
     rule_cdata_state(ctx, rep)
     rule_optional_format(ctx, rep)
     rule_raw_write_flush(ctx, rep)
+    rule_result_driven(ctx, rep)
     from .c03 import rule_line_unit
 
     rule_line_unit(ctx, rep)
